@@ -197,7 +197,7 @@ class DriverView:
 
 
 class State:
-    __slots__ = ('eng', 'pc', 'dv', 'parent', 'action', 'depth', 'result', 'hist')
+    __slots__ = ('eng', 'pc', 'dv', 'parent', 'action', 'depth', 'result', 'hist', 'out')
 
     def __init__(self, eng, pc, dv, parent=None, action=None, result=None):
         self.eng = eng
@@ -207,6 +207,7 @@ class State:
         self.action = action
         self.result = result
         self.hist = None
+        self.out = None             # term reported by the job of an ('ok', j) action
         self.depth = 0 if parent is None else parent.depth + 1
 
     def path(self):
@@ -214,6 +215,16 @@ class State:
         s = self
         while s is not None and s.action is not None:
             p.append((s.action, s.result))
+            s = s.parent
+        p.reverse()
+        return p
+
+    def path_outs(self):
+        """terms reported at the ('ok', j) steps of path(), None elsewhere"""
+        p = []
+        s = self
+        while s is not None and s.action is not None:
+            p.append(s.out)
             s = s.parent
         p.reverse()
         return p
@@ -378,6 +389,12 @@ class Explorer:
             elif k == 'ok':
                 j = action[1]
                 t = self.output_term(st, j)
+                ns.out = t
+                asm = getattr(self.uni, 'output_assume', None)
+                if asm is not None:
+                    # what is known about the value a job reports (e.g. its content is a function of what it consumed)
+                    for a in asm(self, st, j, t):
+                        orc.pc[sym.norm_atom(a)] = True
                 dv.running = dv.running - {j}
                 try:
                     eng.event_job_finished_success(j, t[1] if t[0] == 'lit' else Out(t))
